@@ -2,7 +2,8 @@
 # usage: tools/seedmatrix.sh [out file]   runs, for every seeded/<id>, the quick check of the property it breaks (first 3 chars of the id;
 # plus the properties listed in seeded/<id>/also) against the change in a scratch worktree; writes one line per (seed, property).
 cd "$(dirname "$0")/.."
-OUT=${1:-/tmp/seedmatrix.out}; : > $OUT
+OUT=${1:-/tmp/seedmatrix.out}; [ -n "${APPEND:-}" ] || : > $OUT
+LANES=${LANES:-1 2 3 4}      # LANES="1 3" APPEND=1 runs a part of the matrix and appends
 DEFER=$(mktemp)
 # checks that regenerate lean/NasdaqModel/Extracted (C01 C02 C12 C15) never run concurrently against different trees: outside lane 1 they are deferred
 lane() { n=$1; shift; for s in "$@"; do p=${s:0:3}; for q in $p $(cat seeded/$s/also 2>/dev/null); do
@@ -12,7 +13,7 @@ L1=$(echo "$ALL" | grep '^C0[12]\|^C15\|^C12')          # these regenerate lean/
 L2=$(echo "$ALL" | grep '^C0[3-7]\|^C11')
 L3=$(echo "$ALL" | grep '^C0[89]\|^C1[0346]')
 L4=$(echo "$ALL" | grep '^C1[789]\|^C20')
-lane 1 $L1 & lane 2 $L2 & lane 3 $L3 & lane 4 $L4 & wait
+for n in $LANES; do eval "lane $n \$L$n" & done; wait
 while read s q; do tools/seedtest.sh seeded/$s $q 2>&1 | grep '^RESULT' >> $OUT; done < $DEFER; rm -f $DEFER
 ./check C02 > /dev/null 2>&1; ./check C12 > /dev/null 2>&1      # restore the extracted tables of the unchanged tree
 sort $OUT
